@@ -1,4 +1,5 @@
 import XvcRepo.Cache
+import XvcRepo.Storage
 /-!
   # C05 — Removal never deletes content that other tracked paths still need
 -/
@@ -10,49 +11,175 @@ theorem mem_of_removed (l : List Addr) (s : St) (a : Addr) (o : Obj) (h : s.cach
   · exact hm
   · rw [foldl_removeObj_keep l s a hm, h] at hr; cases hr
 
-/-- **C05_remove_spares_referenced**: without `--force`, `xvc file remove --from-cache` (current
-    version, or `--all-versions`) deletes an object only if **no** tracked entity outside the
-    command's targets refers to that address in its current or any earlier recorded version — for
-    every repository, every sharing pattern and every target list. -/
-theorem C05_remove_spares_referenced (s : St) (ps : List Path) (allVersions : Bool) (a : Addr) (o : Obj)
-    (h : s.cache a = some o) (hr : (s.remove ps allVersions false).1.cache a = none) :
-    ∀ e ∈ s.ents, e ∉ s.targetEnts ps → a ∉ s.versionsOf e := by
-  unfold St.remove at hr
-  simp only at hr
-  have hm := mem_of_removed _ s a o h hr
-  simp only [Bool.false_or, List.mem_filter, List.isEmpty_iff] at hm
-  intro e he hnt hv
-  have : e ∈ s.otherReferrers (s.targetEnts ps) a := by
-    unfold St.otherReferrers
-    simp only [List.mem_filter, decide_eq_true_eq]
-    exact ⟨he, hnt, hv⟩
-  rw [hm.2] at this
-  cases this
+/-- a current version is one of the versions -/
+theorem cur_mem_versionsOf (s : St) (e : Ent) (r : Rec) (d : Digest) (hr : s.recs e = some r) (hc : r.cur = some d) :
+    addrOf r.path d ∈ s.versionsOf e := by
+  unfold St.versionsOf
+  simp only [hr, List.mem_map]
+  refine ⟨d, ?_, rfl⟩
+  unfold Rec.cur at hc
+  exact List.mem_of_getLast? hc
 
-/-- nothing but candidate versions of the targets is ever deleted (with or without `--force`) -/
-theorem C05_remove_only_target_versions (s : St) (ps : List Path) (allVersions force : Bool) (a : Addr) (o : Obj)
-    (h : s.cache a = some o) (hr : (s.remove ps allVersions force).1.cache a = none) :
-    ∃ e ∈ s.targetEnts ps, a ∈ s.versionsOf e := by
-  unfold St.remove at hr
-  simp only at hr
-  have hm := mem_of_removed _ s a o h hr
-  simp only [List.mem_filter, List.mem_flatMap] at hm
-  obtain ⟨⟨e, he, hv⟩, _⟩ := hm
+/-- every candidate is a recorded version of a target, whatever the selection -/
+theorem removeCandidates_versions (s : St) (ts : List Ent) (sel : RemoveSel) (a : Addr)
+    (h : a ∈ s.removeCandidates ts sel) : ∃ e ∈ ts, a ∈ s.versionsOf e := by
+  unfold St.removeCandidates at h
+  obtain ⟨e, he, hv⟩ := List.mem_flatMap.mp h
   refine ⟨e, he, ?_⟩
-  split at hv
-  · exact hv
-  · unfold St.versionsOf
-    split at hv
-    · rename_i r hr'
-      simp only [hr', List.mem_map]
+  cases sel with
+  | all => exact hv
+  | current =>
+    simp only at hv
+    cases hr : s.recs e with
+    | none => simp [hr] at hv
+    | some r =>
+      simp only [hr] at hv
       cases hc : r.cur with
       | none => simp [hc] at hv
       | some d =>
         simp [hc] at hv
-        refine ⟨d, ?_, hv.symm⟩
-        unfold Rec.cur at hc
-        exact List.mem_of_getLast? hc
-    · simp at hv
+        subst hv
+        exact cur_mem_versionsOf s e r d hr hc
+  | only d => exact (List.mem_filter.mp hv).1
+
+/-- what `cmd_remove` decides to delete (from the cache and/or from a storage), without `--force`: only
+    versions of the targets that no tracked entity outside the targets refers to in any version -/
+theorem removeDeletable_spares (s : St) (ps : List Path) (sel : RemoveSel) (l : List Addr)
+    (h : s.removeDeletable ps sel false = some l) (a : Addr) (ha : a ∈ l) :
+    (∃ e ∈ s.targetEnts ps, a ∈ s.versionsOf e) ∧ ∀ e ∈ s.ents, e ∉ s.targetEnts ps → a ∉ s.versionsOf e := by
+  unfold St.removeDeletable at h
+  simp only at h
+  split at h
+  · cases h
+  · cases h
+    simp only [Bool.false_or, List.mem_filter, List.isEmpty_iff] at ha
+    refine ⟨removeCandidates_versions s _ sel a ha.1, ?_⟩
+    intro e he hnt hv
+    have : e ∈ s.otherReferrers (s.targetEnts ps) a := by
+      unfold St.otherReferrers
+      simp only [List.mem_filter, decide_eq_true_eq]
+      exact ⟨he, hnt, hv⟩
+    rw [ha.2] at this
+    cases this
+
+/-- with or without `--force`, only versions of the targets are ever deleted -/
+theorem removeDeletable_target_versions (s : St) (ps : List Path) (sel : RemoveSel) (f : Bool) (l : List Addr)
+    (h : s.removeDeletable ps sel f = some l) (a : Addr) (ha : a ∈ l) : ∃ e ∈ s.targetEnts ps, a ∈ s.versionsOf e := by
+  unfold St.removeDeletable at h
+  simp only at h
+  split at h
+  · cases h
+  · cases h
+    exact removeCandidates_versions s _ sel a (List.mem_filter.mp ha).1
+
+/-- **C05_remove_spares_referenced**: without `--force`, `xvc file remove --from-cache` — current
+    version, `--all-versions` or `--only-version` — deletes an object only if **no** tracked entity
+    outside the command's targets refers to that address in its current or any earlier recorded version
+    — for every repository, every sharing pattern and every target list. -/
+theorem C05_remove_spares_referenced (s : St) (ps : List Path) (sel : RemoveSel) (a : Addr) (o : Obj)
+    (h : s.cache a = some o) (hr : (s.remove ps sel false).1.cache a = none) :
+    ∀ e ∈ s.ents, e ∉ s.targetEnts ps → a ∉ s.versionsOf e := by
+  unfold St.remove at hr
+  cases hd : s.removeDeletable ps sel false with
+  | none => simp only [hd] at hr; rw [h] at hr; cases hr
+  | some l =>
+    simp only [hd] at hr
+    exact (removeDeletable_spares s ps sel l hd a (mem_of_removed _ s a o h hr)).2
+
+/-- nothing but selected versions of the targets is ever deleted (with or without `--force`) -/
+theorem C05_remove_only_target_versions (s : St) (ps : List Path) (sel : RemoveSel) (force : Bool) (a : Addr) (o : Obj)
+    (h : s.cache a = some o) (hr : (s.remove ps sel force).1.cache a = none) :
+    ∃ e ∈ s.targetEnts ps, a ∈ s.versionsOf e := by
+  unfold St.remove at hr
+  cases hd : s.removeDeletable ps sel force with
+  | none => simp only [hd] at hr; rw [h] at hr; cases hr
+  | some l =>
+    simp only [hd] at hr
+    exact removeDeletable_target_versions s ps sel force l hd a (mem_of_removed _ s a o h hr)
+
+/-- **C05_remove_only_version_exact**: `--only-version` deletes nothing but objects of the designated
+    digest, and refuses (changing nothing) when the designation matches more than one (target, version) pair -/
+theorem C05_remove_only_version_exact (s : St) (ps : List Path) (d : Digest) (force : Bool) (a : Addr) (o : Obj)
+    (h : s.cache a = some o) (hr : (s.remove ps (.only d) force).1.cache a = none) :
+    a.d = d ∧ (s.removeCandidates (s.targetEnts ps) (.only d)).length ≤ 1 := by
+  unfold St.remove at hr
+  cases hd : s.removeDeletable ps (.only d) force with
+  | none => simp only [hd] at hr; rw [h] at hr; cases hr
+  | some l =>
+    simp only [hd] at hr
+    have ha := mem_of_removed _ s a o h hr
+    unfold St.removeDeletable at hd
+    simp only [RemoveSel.isOnly, Bool.true_and, decide_eq_true_eq] at hd
+    split at hd
+    · cases hd
+    · rename_i hlen
+      cases hd
+      have hc := (List.mem_filter.mp ha).1
+      unfold St.removeCandidates at hc
+      obtain ⟨e, _, hv⟩ := List.mem_flatMap.mp hc
+      simp only [List.mem_filter, decide_eq_true_eq] at hv
+      exact ⟨hv.2, Nat.le_of_not_lt hlen⟩
+
+/-- what `storageDelete` takes away is one of the listed paths, under the repository's own guid -/
+theorem storageDelete_sub (g : Guid) (l : List Addr) (st : Storage) (k : Guid × Addr) (b : Bytes)
+    (h : st.objs k = some b) (hr : (storageDelete g st l).1.objs k = none) : k.1 = g ∧ k.2 ∈ l := by
+  induction l generalizing st with
+  | nil => simp [storageDelete] at hr; rw [h] at hr; cases hr
+  | cons a as ih =>
+    unfold storageDelete at hr
+    cases ho : st.objs (g, a) with
+    | none => simp only [ho] at hr; rw [h] at hr; cases hr
+    | some x =>
+      simp only [ho] at hr
+      by_cases hk : k = (g, a)
+      · subst hk; exact ⟨rfl, by simp⟩
+      · have h' : ({ objs := upd st.objs (g, a) none } : Storage).objs k = some b := by
+          show upd st.objs (g, a) none k = some b
+          rw [upd_other _ _ hk]; exact h
+        obtain ⟨h1, h2⟩ := ih _ h' hr
+        exact ⟨h1, List.mem_cons_of_mem _ h2⟩
+
+/-- **C05_remove_from_storage_spares_referenced**: `xvc file remove --from-storage` (any selection of
+    versions, no `--force`, whatever the order in which the paths are processed and wherever it stops)
+    deletes a storage object only under the repository's own guid, only if it is a recorded version of a
+    target, and only if no tracked entity outside the targets refers to it in any version. -/
+theorem C05_remove_from_storage_spares_referenced (s : St) (g : Guid) (st : Storage) (ps : List Path) (sel : RemoveSel)
+    (order : List Addr → List Addr) (horder : ∀ l a, a ∈ order l → a ∈ l) (k : Guid × Addr) (b : Bytes)
+    (h : st.objs k = some b) (hr : (s.removeFromStorage g st ps sel false order).1.objs k = none) :
+    k.1 = g ∧ (∃ e ∈ s.targetEnts ps, k.2 ∈ s.versionsOf e) ∧ ∀ e ∈ s.ents, e ∉ s.targetEnts ps → k.2 ∉ s.versionsOf e := by
+  unfold St.removeFromStorage at hr
+  cases hd : s.removeDeletable ps sel false with
+  | none => simp only [hd] at hr; rw [h] at hr; cases hr
+  | some l =>
+    simp only [hd] at hr
+    obtain ⟨hg, hm⟩ := storageDelete_sub g (order l) st k b h hr
+    have := removeDeletable_spares s ps sel l hd k.2 (horder l k.2 hm)
+    exact ⟨hg, this.1, this.2⟩
+
+/-- with `--force` still nothing but selected versions of the targets, under the own guid, is deleted -/
+theorem C05_remove_from_storage_only_target_versions (s : St) (g : Guid) (st : Storage) (ps : List Path) (sel : RemoveSel)
+    (force : Bool) (order : List Addr → List Addr) (horder : ∀ l a, a ∈ order l → a ∈ l) (k : Guid × Addr) (b : Bytes)
+    (h : st.objs k = some b) (hr : (s.removeFromStorage g st ps sel force order).1.objs k = none) :
+    k.1 = g ∧ ∃ e ∈ s.targetEnts ps, k.2 ∈ s.versionsOf e := by
+  unfold St.removeFromStorage at hr
+  cases hd : s.removeDeletable ps sel force with
+  | none => simp only [hd] at hr; rw [h] at hr; cases hr
+  | some l =>
+    simp only [hd] at hr
+    obtain ⟨hg, hm⟩ := storageDelete_sub g (order l) st k b h hr
+    exact ⟨hg, removeDeletable_target_versions s ps sel force l hd k.2 (horder l k.2 hm)⟩
+
+/-- two paths with the same content, sent to a storage: removing one of them from the storage deletes
+    nothing (the other still refers to the object), removing both deletes it (non-vacuity) -/
+theorem C05_remove_from_storage_witness :
+    let s := (((St.init.userWrite ⟨0, 1⟩ [104]).userWrite ⟨1, 1⟩ [104]).track {} {} [⟨0, 1⟩, ⟨1, 1⟩]).1
+    let a : Addr := ⟨⟨0, [104]⟩, 1⟩
+    let st := send 1 s { objs := fun _ => none } [(a, .ok)]
+    st.objs (1, a) = some [104] ∧
+    (s.removeFromStorage 1 st [⟨0, 1⟩] .current false id).1.objs (1, a) = some [104] ∧
+    (s.removeFromStorage 1 st [⟨0, 1⟩, ⟨1, 1⟩] .current false id).1.objs (1, a) = none ∧
+    (s.removeFromStorage 1 st [⟨0, 1⟩] .current true id).1.objs (1, a) = none := by
+  decide
 
 /-- **C05_untrack_spares_referenced**: `untrack` deletes an object only if no tracked entity outside
     the targets refers to it in any recorded version. -/
@@ -61,8 +188,6 @@ theorem C05_untrack_spares_referenced (s : St) (ps : List Path) (a : Addr) (o : 
     ∀ e ∈ s.ents, e ∉ s.targetEnts ps → a ∉ s.versionsOf e := by
   unfold St.untrack at hr
   simp only at hr
-  split at hr
-  · rw [h] at hr; cases hr
   · have h1 := rematerialise_cache s (s.targetEnts ps)
     generalize s.rematerialise (s.targetEnts ps) = res at h1 hr
     obtain ⟨s1, o1⟩ := res
@@ -89,11 +214,7 @@ theorem C05_untrack_unlists (s : St) (ps : List Path) (e : Ent) (he : e ∈ s.ta
     (hok : (s.untrack ps).2 = .ok) : (s.untrack ps).1.recs e = none := by
   unfold St.untrack at hok ⊢
   simp only at hok ⊢
-  split
-  · rename_i hany; simp [hany] at hok
-  · rename_i hany
-    simp only [hany, Bool.false_eq_true, if_false] at hok
-    generalize s.rematerialise (s.targetEnts ps) = res at hok ⊢
+  · generalize s.rematerialise (s.targetEnts ps) = res at hok ⊢
     obtain ⟨s1, o1⟩ := res
     cases o1 <;> simp only at hok ⊢
     · rw [foldl_removeObj_recs]; simp [St.dropRecs, he]
@@ -131,7 +252,24 @@ theorem C05_untrack_hardlink_becomes_file (s : St) (p : Path) (a : Addr) (o : Ob
   have hrt : (s.readThrough p).isSome := by simp [St.readThrough, hw]
   simp [hrt, ho, upd]
 
-example : ∃ s : St, ∃ a o, s.cache a = some o ∧ (s.remove [⟨0, 1⟩] false false).1.cache a = none :=
+/-- a target that is missing from the workspace is restored from the cache as an independent writable
+    copy before it is untracked (one target) -/
+theorem C05_untrack_missing_becomes_file (s : St) (p : Path) (a : Addr) (o : Obj)
+    (hw : s.ws p = none) (ho : s.cache a = some o) :
+    ∃ st', (s.recheckFromCache p a .copy).1.ws p = some (.file o.b true st' none) := by
+  unfold St.recheckFromCache
+  have hrt : (s.readThrough p).isSome = false := by simp [St.readThrough, hw]
+  simp [hrt, hw, ho, upd]
+
+/-- …and the whole command on such a target: the file is back, the record is gone -/
+theorem C05_untrack_missing_witness :
+    let s0 := ((St.init.userWrite ⟨0, 1⟩ [104]).track {} { method := some .symlink } [⟨0, 1⟩]).1
+    let s1 := s0.userDelete ⟨0, 1⟩
+    (s1.untrack [⟨0, 1⟩]).2 = .ok ∧ (s1.untrack [⟨0, 1⟩]).1.ws ⟨0, 1⟩ = some (.file [104] true 2 none) ∧
+    (s1.untrack [⟨0, 1⟩]).1.recs 1 = none := by
+  decide
+
+example : ∃ s : St, ∃ a o, s.cache a = some o ∧ (s.remove [⟨0, 1⟩] .current false).1.cache a = none :=
   ⟨((St.init.userWrite ⟨0, 1⟩ [104]).track {} {} [⟨0, 1⟩]).1, ⟨⟨0, [104]⟩, 1⟩, ⟨[104], true, 1⟩, by decide, by decide⟩
 
 end Repo
@@ -140,6 +278,14 @@ open Repo in
 #print axioms C05_remove_spares_referenced
 open Repo in
 #print axioms C05_remove_only_target_versions
+open Repo in
+#print axioms C05_remove_only_version_exact
+open Repo in
+#print axioms C05_remove_from_storage_spares_referenced
+open Repo in
+#print axioms C05_remove_from_storage_only_target_versions
+open Repo in
+#print axioms C05_remove_from_storage_witness
 open Repo in
 #print axioms C05_untrack_spares_referenced
 open Repo in
@@ -150,3 +296,7 @@ open Repo in
 #print axioms C05_untrack_shared_hardlink_becomes_file
 open Repo in
 #print axioms C05_untrack_hardlink_becomes_file
+open Repo in
+#print axioms C05_untrack_missing_becomes_file
+open Repo in
+#print axioms C05_untrack_missing_witness
